@@ -140,6 +140,30 @@ SUMMARY.update({
 })
 
 
+SUMMARY.update({
+ "C01-9": "V2000 merge loop 'for atom_index in range(len(atom_attrs) - 1)': property-line labels on the LAST atom are dropped",
+ "C01-10": "V3000 bond indices validated against the COUNTS value instead of the declared indices: a numbering with gaps is rejected",
+ "C02-9": "tolerant _to_int regex: explicitly plus-signed values ('+13', ' +2') read as 0 (caught by C08's plus-signed job, not by C02's own legs)",
+ "C02-10": "atom symbol slice [31:33]: a two-letter symbol starting in the second column of the field (' Cl') loses its second letter — NOT CAUGHT: right-aligned symbols are deliberately outside the rendering domain (see text)",
+ "C03-9": "sort_molecule_by_attribute rebuilds the graph: atoms under new labels, bonds copied under old labels",
+ "C03-10": "sort_molecule_by_attribute with relabel_nodes(copy=False): any non-identity permutation raises NetworkXUnfeasible",
+ "C06-9": "ENDPTS recognised only as the first keyword of the bond line (a C07 matter: caught by C07's star jobs with a keyword in front of ENDPTS)",
+ "C06-10": "V2000 property block offset takes the Stext count from the chiral-flag column: chiral flag 1 skips the first two property lines",
+ "C07-9": "ENDPTS regex applied with .match() to the properties tail: any property in front of ENDPTS hides it",
+ "C07-10": "operator precedence in a merged dict expression: only the first non-zero of CHG/MASS/RAD is kept",
+ "C08-9": "chiral flag read as Stext count",
+ "C08-10": "explicit 0 entries survive when the atom also has a non-zero entry of another kind (rad=0 next to mass=15)",
+ "C09-9": "coordinates >= 1e16 written with .6e (7 significant digits)",
+ "C09-10": "wrap behind the last blank searched up to column 72 instead of 71: an 81-character physical line",
+ "C10-9": "regex fast path in front of ANTLR checks Hill order non-strictly: 'HH/(1-2)', 'CC/' accepted",
+ "C10-10": "self-bond test with 'is' instead of '==': (i-i) accepted for i >= 257",
+ "C11-9": "attribute_sequence neighbour sort key ignores the radical: neighbours differing only in rad keep adjacency order",
+ "C11-10": "sort_molecule_by_attribute maps edges with the inverse permutation: norm(s) denotes another molecule when the in-element permutation has a 3-cycle",
+ "C15-9": "symmetry number via count_automorphisms: int() of > 4300 digits",
+ "C15-10": "every refinement step kept alive until convergence: memory O(rounds x atoms), 2.3 GB for a 2600-atom chain",
+})
+
+
 def main():
     rows = []
     for d in sorted(glob.glob("/verif/seeded/*")):
